@@ -251,6 +251,9 @@ func init() {
 	V["Assert"] = func(c *Ctx, st *State, a []Value, site ssa.Instruction) Value {
 		g := termOf(a[0])
 		c.addOb(st, "assert", a[1].(string), c.posOf(site), g)
+		for _, t := range flattenAnd(g) {
+			c.asserted[t] = true // proved facts are assumed afterwards, but are not used as rewrite rules
+		}
 		st.pc = st.pc.and(g)
 		if st.pc.term().IsFalse() {
 			return endPath
@@ -567,6 +570,7 @@ func init() {
 
 	// ---- ghost state attached to memory locations ----
 	V["GhostSet"] = func(c *Ctx, st *State, a []Value, site ssa.Instruction) Value {
+		c.usedGhost = true
 		p := ghostPtr(a[0])
 		sv, ok := st.load(p).(*StructV)
 		if !ok {
